@@ -106,6 +106,17 @@ def receive(data, keymode, accept):
     return world, list(world.probe.seen), reasons
 
 
+
+def same_layout(data, alt):
+    """Do the altered octets still parse, as plain CBOR, into the same top-level items at the same places
+    (the primary block and every other block where they were)?"""
+    try:
+        (_i1, e1, info1) = C.load(bytes(data), 0)
+        (_i2, e2, info2) = C.load(bytes(alt), 0)
+    except C.DecodeError:
+        return False
+    return e1 == e2 and isinstance(info1, dict) and isinstance(info2, dict) and info1.get('spans') == info2.get('spans')
+
 def classify(orig, alt_bytes):
     try:
         alt = B.decode(alt_bytes, strict=False)
@@ -353,7 +364,7 @@ def run_case(params, known):
                         and altdec['primary']['report_to'] != 'dtn:none' and not any(r in SEC_REASONS for r in reasons):
                     viol('security-failure-not-reported', dict(), '%s: reasons %r' % (what, reasons), alt, what)
             elif verdict == 'undecodable' and what.startswith('bit ') and delivered and leaked \
-                    and orig['primary']['span'][0] * 8 <= int(what[4:]) < orig['primary']['span'][1] * 8:
+                    and orig['primary']['span'][0] * 8 <= int(what[4:]) < orig['primary']['span'][1] * 8 and same_layout(data, alt):
                 # one bit of the primary block changed into something that is no RFC 9171 bundle any more (an endpoint ID
                 # the scheme does not allow, say): whatever the receiver makes of it, the primary block is not the one
                 # that was bound in - and the plaintext came out
